@@ -54,6 +54,9 @@ def generate(tier, seed, work, stats):
             if i % 2 == 0:
                 cases.append(dict(kind=kind, calls=calls, spool="str", ypool="long", perm=None, family="FAGen"))
     cases += c01.random_cases(1000 if tier == "quick" else 20000, seed + 6, nq=4, nt=6)
+    # symbol values that are not strings (no metacharacter, no blank: inside the domain of the property)
+    for c in c01.random_cases(300 if tier == "quick" else 3000, seed + 7, nq=3, nt=5):
+        cases.append(dict(c, ypool="int", family="random-integer-symbols"))
     return cases
 
 
@@ -134,5 +137,6 @@ def replay(case):
 def features(ev, clause):
     from harness import fa
     f = fa.fa_features(ev["A"])
+    f["nonstring_symbols"] = any(not y.startswith("s:") for y in ev["A"]["symbols"])
     f["n_start"] = min(f["n_start"], 2)
     return f
